@@ -41,6 +41,35 @@ struct Rec : Observer {
         rv.emplace(r, v); st.emplace(r, *w.st); udq.emplace(r, *w.udq); astate.emplace(r, w.astate);
     }
     void end_of_step(World&, int r) override { if (!img_prefix.empty()) copy_files(my_dir, img_prefix + std::to_string(r)); }
+    // A comparison whose two sides agree to within single precision can legitimately come out differently in a restarted run:
+    // totals travel through the restart file in single precision (statement: "to single precision otherwise").  Such an
+    // evaluation is recorded and the firing / continuation comparisons of that run are not judged.
+    std::vector<int> borderline_steps;
+    // the same for time: the time of an action's last run travels through the restart file as a single-precision number of days; a
+    // waiting period that ends exactly at an evaluation time is decided by that rounding
+    void before_actions(World& w, int step) override {
+        const std::time_t now = w.sched->simTime(static_cast<size_t>(step));
+        const double elapsed = std::difftime(now, w.sched->getStartTime());
+        for (const auto& a : (*w.sched)[static_cast<size_t>(step)].actions.get()) {
+            if (w.astate.run_count(a) == 0 || a.min_wait() <= 0) continue;
+            const double d = std::difftime(now, w.astate.run_time(a));
+            if (std::fabs(d - a.min_wait()) <= 1e-6 * elapsed + 1.0) borderline_steps.push_back(step);
+        }
+    }
+    void on_action_eval(World& w, int step, const Opm::Action::ActionX& action, const Opm::Action::Result&) override {
+        for (const auto& cond : action.conditions()) {
+            char* e = nullptr; const double rhs = std::strtod(cond.rhs.quantity.c_str(), &e);
+            if (!e || *e != 0 || cond.lhs.quantity.empty()) continue;            // month names, quantities on the right: not numeric
+            std::vector<double> lv;
+            const std::string& q = cond.lhs.quantity;
+            try {
+                if (cond.lhs.args.empty()) { if (w.st->has(q)) lv.push_back(w.st->get(q)); }
+                else if (q[0] == 'G') { if (w.st->has_group_var(cond.lhs.args[0], q)) lv.push_back(w.st->get_group_var(cond.lhs.args[0], q)); }
+                else for (const auto& wn : w.st->wells(q)) lv.push_back(w.st->get_well_var(wn, q));
+            } catch (const std::exception&) {}
+            for (double l : lv) if (std::fabs(l - rhs) <= 4e-6 * std::max(std::fabs(l), std::fabs(rhs))) { borderline_steps.push_back(step); break; }
+        }
+    }
 };
 
 bool close_rel(double a, double b, double rel, double abs_tol = 0) {
@@ -366,7 +395,10 @@ struct C05 : Scenario {
                 } catch (const std::exception& e) { c.fail("C05.R4.continuation_threw." + msg_key(e.what()), std::string("the restarted run threw while continuing: ") + e.what()); }
                 sim_s += B ? B->sim_seconds : 0;
             }
-            if (!c.failed) {
+            bool borderline = !recB.borderline_steps.empty();
+            for (int bs : recA.borderline_steps) if (bs >= n) borderline = true;
+            if (borderline) ++r.counters["probe.condition_within_single_precision_of_its_threshold"];
+            if (!c.failed && !borderline) {
                 // firings of A at steps >= n against all firings of B
                 std::vector<std::string> fa, fb;
                 auto fstr = [](const Firing& f) { std::string s = f.action + "@" + std::to_string(f.step) + ":"; for (auto& w : f.wells) s += w + ","; return s; };
@@ -380,7 +412,7 @@ struct C05 : Scenario {
                 for (const auto& wn : A->sched->wellNames(static_cast<size_t>(k - 1))) for (const char* key : {"WOPTH", "WOPRH", "WOPT", "WOPR", "WWPTH", "WWPRH"})
                     if (sa.has_well_var(wn, key)) fprintf(stderr, "DEBUG step %d %s:%s A=%.10g B=%.10g\n", k, key, wn.c_str(), sa.get_well_var(wn, key), sb.has_well_var(wn, key) ? sb.get_well_var(wn, key) : -1.0);
             }
-            if (!c.failed && !probe && !getenv("VERIF_SKIP_R4SUM")) {
+            if (!c.failed && !probe && !borderline && !getenv("VERIF_SKIP_R4SUM")) {
                 // cumulative totals and UDQ values at every later report step (float tolerance: the restart stored doubles, so tight)
                 for (int k = n + 1; k <= last && !c.failed; ++k) {
                     if (!recA.st.count(k) || !recB.st.count(k)) continue;
